@@ -41,7 +41,7 @@ from geometer.utils import adjugate, det, hat_matrix, inv, is_multiple, matmul, 
 if TYPE_CHECKING:
     from typing_extensions import Unpack
 
-    from geometer.utils.typing import NDArrayParameters, TensorParameters
+    from geometer.utils.typing import NDArrayParameters, TensorIndex, TensorParameters
 
 
 class QuadricTensor(ProjectiveTensor, ABC):
@@ -83,6 +83,14 @@ class QuadricTensor(ProjectiveTensor, ABC):
         if not is_dual:
             kwargs.setdefault("covariant", False)
         super().__init__(matrix, tensor_rank=2, **kwargs)
+
+    def __getitem__(self, index: TensorIndex) -> Tensor | np.generic:
+        result = super().__getitem__(index)
+
+        if not isinstance(result, Tensor) or result.tensor_shape != self.tensor_shape:
+            return result
+
+        return QuadricCollection.from_tensor(result, is_dual=self.is_dual)
 
     def __add__(self, other: Tensor | npt.ArrayLike) -> Tensor:
         if not isinstance(other, PointTensor):
